@@ -211,10 +211,21 @@ def ite_cases(cases, default):
     """
     sofar = default
     for c, v in reversed(list(cases)):
-        if is_true(v == sofar):
+        if _same_value(v, sofar):
             continue
         sofar = If(c, v, sofar)
     return sofar
+
+
+def _same_value(a, b) -> bool:
+    """
+    Do `a` and `b` definitely denote the same value?  Floating-point equality does not say so: -0.0 == +0.0.
+    """
+    if isinstance(a, float) and isinstance(b, float):
+        return repr(a) == repr(b)
+    if getattr(a, "op", None) == "FPV" and getattr(b, "op", None) == "FPV":
+        return a is b
+    return is_true(a == b)
 
 
 def reverse_ite_cases(ast):
